@@ -114,6 +114,13 @@ inline bytes reduce_tree(std::vector<bytes> const& contrib, collective_sig const
     return a;
 }
 
+// user callback for the mpi_* integrators that never ends a run
+struct never_stop_mpi
+{
+    template <typename C>
+    bool operator()(MPI_Comm, C const&) const { return true; }
+};
+
 struct need_collective {};   // unwinds a rank that waits for a result that is not known yet
 struct collective_mismatch { std::string what; };
 
